@@ -320,7 +320,15 @@ func c11RunCase(rep *Report, dir string, files, links map[string]string, importe
 				continue // builtin (node:xyz)
 			}
 			if errText != "" {
-				rep.violate(class+"/esbuild-fails-where-node-resolves", fmt.Sprintf("%s %q from %s: Node resolves to %s, esbuild: %s", q.Kind, q.Spec, impRel, a.Path, errText), mk(a.Path, errText))
+				suffix := ""
+				for k, c := range files {
+					if strings.HasSuffix(k, "package.json") && strings.Contains(strings.ToLower(c), "%2e") {
+						// a target with a percent-encoded dot segment is an Invalid Package Target for Node (skipped inside an
+						// array), esbuild's findInvalidSegment only knows the plain spellings: recorded known finding
+						suffix = ":percent-encoded-segment"
+					}
+				}
+				rep.violate(class+"/esbuild-fails-where-node-resolves"+suffix, fmt.Sprintf("%s %q from %s: Node resolves to %s, esbuild: %s", q.Kind, q.Spec, impRel, a.Path, errText), mk(a.Path, errText))
 			} else if got != a.Path {
 				rep.violate(class+"/resolves-to-different-file", fmt.Sprintf("%s %q from %s: Node resolves to %s, esbuild to %s", q.Kind, q.Spec, impRel, a.Path, got), mk(a.Path, got))
 			}
